@@ -650,7 +650,7 @@ func genLookupCase(r *rng.R) fw.Case {
 }
 
 func generate(tier string, r *rng.R) []fw.Case {
-	nParse, nLookup := 30000, 1500
+	nParse, nLookup := 50000, 3000
 	if tier == "thorough" {
 		nParse, nLookup = 400000, 30000
 	}
